@@ -22,6 +22,10 @@ def fanOutOverTargets : Bool := true
 def asyncFanOutOverTargets : Bool := true
 def invalidateUnconditional : Bool := true
 def asyncInvalidateUnconditional : Bool := true
+def ensureConnectedCaches : Bool := true
+def asyncEnsureConnectedCaches : Bool := true
+def resultsKeyedByNode : Bool := true
+def asyncResultsKeyedByNode : Bool := true
 def maxAttemptsValidated : Bool := true
 def asyncMaxAttemptsValidated : Bool := true
 def namesDistinctAtConstruction : Bool := true
